@@ -37,7 +37,8 @@ NOT_APPLICABLE.setdefault('C14', NA_PENDING)
 NOT_APPLICABLE.setdefault('C15', NA_PENDING)
 check("C16", "One selection round of the block-fetch scheduler from any queue state satisfying the in-flight invariant: in-flight count stays within the batch size, returned blocks are exactly the Queued entries put in flight, in increasing height order, never one already in flight; a failing block is re-queued only while its retry counter is below 500 and the counter is bounded; a Queued block is left waiting only when the quota is used up. Decided by z3 over the MIR for queues of up to 3 (4) entries.",
       "trusted: mirsym semantics and container models; queue pre-sorted (sort modelled as identity); other scheduler operations and liveness outside", "MIR-to-SMT symbolic execution (mirsym) decided by z3; inductive step from an arbitrary invariant state", "DESIGN.md 4/C16")
-NOT_APPLICABLE.setdefault('C17', NA_PENDING)
+check("C17", "One handshake-response step from an arbitrary peer state: the peer is marked Connected / Ok is returned only if a challenge was outstanding and the signature over exactly that challenge by exactly the responder's key verified, the recorded key is the responder's, and the challenge is consumed on acceptance (so the same response is not accepted twice); a bad signature or missing challenge never yields a newly connected peer. Cross-connection replay/reflection is not claimed.",
+      "trusted: mirsym semantics; crypto::verify as a free predicate; single step, single connection", "MIR-to-SMT symbolic execution (mirsym) decided by z3; one step from an arbitrary state", "DESIGN.md 4/C17")
 NOT_APPLICABLE.setdefault('C18', NA_PENDING)
 check("C19", "Each of add_slip, delete_slip, generate_slips and find_slips_for_staking re-establishes the wallet invariant (available balance = sum of the outputs listed as unspent; lists consistent) from every wallet state with up to 3 slips satisfying it, with no arithmetic panic, and generate_slips' inputs and change add up to the requested amount in unbounded arithmetic. Agreement with the ledger is not claimed.",
       "trusted: mirsym semantics, map/set models; amounts within the token supply; ledger agreement, pending transactions, reorg handling outside", "MIR-to-SMT symbolic execution (mirsym) decided by z3; inductive steps from an arbitrary invariant state", "DESIGN.md 4/C19")
